@@ -61,6 +61,15 @@ if __name__ == '__main__':
     if pl.get('mode') == 'replay': rep.case('replay', pl['input']); check_case(rep, pl['input'], 'replay')
     else:
         rng = random.Random(pl.get('seed', 0))
+        # CLI corner: --include-species with no labels = include the empty set = every entry deleted
+        sp_, head, entries = pair_model(random.Random(5), n_species=2)
+        full = render(head, [('Pair', entries)]); empty = render(head, [('Pair', [])])
+        code, so, se, text = potable(['--include-species'], full)
+        try: want = tabulate_text(empty)
+        except Exception as e: want = None
+        rep.case('cli', 'cli-include-empty')
+        if want is not None and text != want: rep.dev('cli-include-empty', dict(kind='cli', args=['--include-species']), 'nothing was filtered (%d bytes written)' % len(text or ''), 'the table of the file with every entry deleted (%d bytes)' % len(want))
+        else: rep.ok()
         for i in range(pl.get('n', 40)):
             c = gen_case(rng); rep.case(c['kind'], c); check_case(rep, c, 'seeded-%d' % i)
     rep.finish()
